@@ -36,6 +36,8 @@
 (*                   declared content type)                                *)
 (*      DefaultReturn    :494-505  (the PRIMARY's strategy for the default *)
 (*                   response)                                             *)
+(*      CattrsImported / Unimportable  which emitted modules lack the      *)
+(*                   structure_from_dict import / are not valid Python     *)
 (*    and the variant "fixed" showing that the property is satisfiable.    *)
 (*    Variants "sig201" / "hdl201" prefer 201 over 200 in ONE of the two   *)
 (*    selection copies (negative control of the design check).             *)
@@ -181,12 +183,23 @@ ServedCode(st) == IF st = "default" THEN DefaultServed ELSE Code(st)
 
 Filler(st) == IF st = "204" THEN [c |-> "none", sh |-> "-"] ELSE [c |-> "json", sh |-> "other"]
 
-\* a scenario: the served response + the other declared statuses
+\* the primary (signature-defining) success response by the documented priority: the first of `order` that is declared,
+\* then any other 2xx key (206 is the only one here), then default
+PrimaryBy(order, d) ==
+  LET hits == SelectSeq(order, LAMBDA st : st \in DOMAIN d)
+  IN  IF Len(hits) > 0 THEN hits[1]
+      ELSE IF "206" \in DOMAIN d THEN "206"
+      ELSE IF "default" \in DOMAIN d THEN "default"
+      ELSE CHOOSE st \in DOMAIN d : TRUE
+DocOrder == <<"200", "201", "202", "204">>
+
+\* a scenario: the served response + the other declared statuses + sib: the operation's tag (= its emitted endpoint
+\* module) holds a second, ordinary operation (GET returning a JSON model) - or the operation is alone in its module
 Decl(sc) == [st \in sc.others \cup {sc.served} |-> IF st = sc.served THEN sc.cell ELSE Filler(st)]
 
 Scenarios(maxDecl) ==
-  {[served |-> st, cell |-> cell, others |-> o] :
-      st \in Statuses, cell \in Cells, o \in UNION {kSubset(n, Statuses) : n \in 0..(maxDecl - 1)}}
+  {[served |-> st, cell |-> cell, others |-> o, sib |-> sib] :
+      st \in Statuses, cell \in Cells, o \in UNION {kSubset(n, Statuses) : n \in 0..(maxDecl - 1)}, sib \in BOOLEAN}
 WellFormedScenario(sc) ==
   /\ sc.served \notin sc.others
   /\ sc.served = "204" => sc.cell.c = "none"
@@ -194,6 +207,9 @@ WellFormedScenario(sc) ==
   \* the only response and has content.  Next to explicit 2xx keys, or without content, it is the usual "any error" entry
   \* and the property gives a 2xx answer under it no meaning (it stays in the family as a filler).
   /\ sc.served = "default" => (sc.cell.c # "none" /\ sc.others = {})
+  \* the family fixes the irrelevant dimension: a sibling operation is added where the served response is not handled by
+  \* the operation's one ResponseStrategy alone (several content types, or a secondary response)
+  /\ sc.sib => (sc.cell.c = "json+text" \/ (sc.served # "default" /\ sc.served # PrimaryBy(DocOrder, Decl(sc))))
 
 \* ---------------------------------------------------------------------------------------------
 \* reference meaning (what the property promises) - independent of any selection logic
@@ -274,7 +290,7 @@ Failures(ctx, b, ann, o) ==
         IF o.kind # "items" THEN {Fail("C05.stream_items", ctx, b, o, "not_a_stream")}
         ELSE (IF ApproxSeq(e.items, o.items) THEN {}
               ELSE IF SameBag(o.items, e.items) THEN {Fail("C05.stream_order", ctx, b, o, "")}
-              ELSE {Fail("C05.stream_items", ctx, b, o, "")})
+              ELSE {Fail("C05.stream_items", ctx, b, o, IF Len(o.items) = 0 THEN "nothing_yielded" ELSE "")})
              \cup (IF ~AdmitsItems(ann, o.itemkinds) THEN {Fail("C05.kind", ctx, b, o, "annotation")} ELSE {})
 
 Holds(ctx, b, ann, o) == Failures(ctx, b, ann, o) = {}
@@ -285,16 +301,9 @@ Holds(ctx, b, ann, o) == Failures(ctx, b, ann, o) = {}
 Variants == {"as_is", "fixed", "sig201", "hdl201"}
 
 \* the priority list of the two copies of the primary-response selection
-SigOrder(v) == IF v = "sig201" THEN <<"201", "200", "202", "204">> ELSE <<"200", "201", "202", "204">>
-HdlOrder(v) == IF v = "hdl201" THEN <<"201", "200", "202", "204">> ELSE <<"200", "201", "202", "204">>
+SigOrder(v) == IF v = "sig201" THEN <<"201", "200", "202", "204">> ELSE DocOrder
+HdlOrder(v) == IF v = "hdl201" THEN <<"201", "200", "202", "204">> ELSE DocOrder
 
-\* 200, 201, 202, 204, then any other 2xx key (206 is the only one here), then default
-PrimaryBy(order, d) ==
-  LET hits == SelectSeq(order, LAMBDA st : st \in DOMAIN d)
-  IN  IF Len(hits) > 0 THEN hits[1]
-      ELSE IF "206" \in DOMAIN d THEN "206"
-      ELSE IF "default" \in DOMAIN d THEN "default"
-      ELSE CHOOSE st \in DOMAIN d : TRUE
 PrimarySig(v, d) == PrimaryBy(SigOrder(v), d)
 PrimaryHdl(v, d) == PrimaryBy(HdlOrder(v), d)
 
@@ -375,9 +384,11 @@ Structure(ty, j) ==
                        ELSE IF j.t = "obj" /\ "bark" \in Keys(j) THEN StructModel("Dog", j) ELSE Raised("ValueError")
     [] ty = "Bag"   -> IF j.t = "obj" THEN Returned("model:Bag", j) ELSE Raised("ValueError")
 
-\* `return structure_from_dict(response.json(), T)` / `return cast(T, response.json())`
-FromJson(ty, b) ==
-  IF ~ParsesAsJson(b) THEN Raised("JSONDecodeError")
+\* `return structure_from_dict(response.json(), T)` / `return cast(T, response.json())`;  imp = the endpoint module
+\* imports structure_from_dict (the NAME is looked up before response.json() is evaluated)
+FromJson(imp, ty, b) ==
+  IF UsesCattrs(ty) /\ ~imp THEN Raised("NameError")
+  ELSE IF ~ParsesAsJson(b) THEN Raised("JSONDecodeError")
   ELSE IF UsesCattrs(ty) THEN Structure(ty, ParsedJson(b))
   ELSE Returned(RawKind(ParsedJson(b)), ParsedJson(b))
 
@@ -395,14 +406,28 @@ IterRecords(ty, b) ==
       ELSE Yielded(MapSeq(LAMBDA r : r.tree, rs), {rs[i].pykind : i \in 1..Len(rs)}, "")
 
 \* _write_strategy_based_return for strategy s on body b
-StrategyReturn(s, b) ==
+StrategyReturn(imp, s, b) ==
   CASE s.k = "none"        -> Returned("none", NoTree)
     [] s.k = "aiter_bytes" -> IterBytes(b)
     [] s.k = "aiter_json"  -> IterSseJson(b)
-    [] s.k = "switch"      -> IF b.ct = "json" THEN FromJson(s.ty, b) ELSE Returned("str", ServedText(b))
+    [] s.k = "switch"      -> IF b.ct = "json" THEN FromJson(imp, s.ty, b) ELSE Returned("str", ServedText(b))
     [] s.k = "text"        -> Returned("str", ServedText(b))                 \* (fixed only)
     [] s.k = "aiter_records" -> IterRecords(s.ty, b)                        \* (fixed only)
-    [] OTHER               -> FromJson(s.ty, b)
+    [] OTHER               -> FromJson(imp, s.ty, b)
+
+\* `from <core>.cattrs_converter import structure_from_dict` is registered ONLY by the cattrs branch of
+\* _write_strategy_based_return (:567-572) - not by the Content-Type switch (:695-699) nor by the secondary-2xx branch
+\* (:476-479).  Every scenario is its own endpoint module (own tag): nothing else brings the name in, unless the module
+\* has the sibling operation (a plain JSON-model GET, which takes the cattrs branch).
+CattrsImported(v, d, sib) == v = "fixed" \/ sib \/ LET s == Strategy(d[PrimarySig(v, d)]) IN s.k = "type" /\ UsesCattrs(s.ty)
+
+\* a streaming primary response makes the method an async generator (`yield`); every further numeric 2xx key adds a
+\* `return <expr>` (`return None` included) to the same function: SyntaxError, the whole client package cannot be imported
+IsStreaming(s) == s.k \in {"aiter_bytes", "aiter_json"}
+Unimportable(v, d) ==
+  /\ v # "fixed"
+  /\ IsStreaming(Strategy(d[PrimarySig(v, d)]))
+  /\ \E st \in DOMAIN d : st # "default" /\ st # PrimaryHdl(v, d)
 
 \* which `case` of the emitted match statement fires for the served status
 CaseOf(v, d, st) ==
@@ -412,25 +437,29 @@ CaseOf(v, d, st) ==
       ELSE "default"
 
 \* other 2xx keys: always response.json(), typed by the response's own (JSON-preferred) schema
-SecondaryReturn(r, b) ==
-  IF r.c = "none" THEN Returned("none", NoTree) ELSE FromJson(TypeOf(r.sh), b)
+SecondaryReturn(imp, r, b) ==
+  IF r.c = "none" THEN Returned("none", NoTree) ELSE FromJson(imp, TypeOf(r.sh), b)
 
 \* `case _:  # Default response` - parsed with the PRIMARY's strategy when the default response has content
-DefaultReturn(v, d, b) ==
+DefaultReturn(v, d, imp, b) ==
   LET s == Strategy(d[PrimarySig(v, d)])
-  IN  IF d["default"].c # "none" /\ s.k # "none" THEN StrategyReturn(s, b) ELSE Raised("HTTPError")
+  IN  IF d["default"].c # "none" /\ s.k # "none" THEN StrategyReturn(imp, s, b) ELSE Raised("HTTPError")
 
-ModelOutcome(v, d, st, b) ==
-  IF v = "fixed" THEN StrategyReturn(FixedStrategy(d[st]), b)
+ModelOutcome(v, d, sib, st, b) ==
+  IF v = "fixed" THEN StrategyReturn(TRUE, FixedStrategy(d[st]), b)
+  ELSE IF Unimportable(v, d) THEN Raised("SyntaxError")
   ELSE LET c == CaseOf(v, d, st)
-       IN  IF c = "primary" THEN StrategyReturn(Strategy(d[PrimarySig(v, d)]), b)
-           ELSE IF c = "secondary" THEN SecondaryReturn(d[st], b)
-           ELSE DefaultReturn(v, d, b)
+           imp == CattrsImported(v, d, sib)
+       IN  IF c = "primary" THEN StrategyReturn(imp, Strategy(d[PrimarySig(v, d)]), b)
+           ELSE IF c = "secondary" THEN SecondaryReturn(imp, d[st], b)
+           ELSE DefaultReturn(v, d, imp, b)
 
 \* the caller-side role of the served response (what the DOCUMENT says, by the documented priority)
-RoleOf(d, st) == IF st = "default" THEN "default" ELSE IF st = PrimaryBy(<<"200", "201", "202", "204">>, d) THEN "primary" ELSE "secondary"
+RoleOf(d, st) == IF st = "default" THEN "default" ELSE IF st = PrimaryBy(DocOrder, d) THEN "primary" ELSE "secondary"
 
 \* comparable projection of an outcome (model vs. code; differences are DRIFT, never a failure)
-Project(o) == [kind |-> o.kind, pykind |-> o.pyclass, tree |-> Norm(o.tree), n |-> Len(o.items),
+\* (a transport may re-cut binary chunks: binary streams are compared by their octets, other streams by their length)
+Project(o) == [kind |-> o.kind, pykind |-> o.pyclass, tree |-> Norm(o.tree),
+               n |-> IF o.itemkinds = {"bytes"} THEN 0 ELSE Len(o.items), cat |-> o.cat,
                exc |-> IF o.kind = "raise" THEN "raise" ELSE ""]
 =============================================================================
